@@ -2,6 +2,7 @@ package sim
 
 import (
 	"fmt"
+	"sort"
 
 	"verifharness/client"
 	"verifharness/lnmodel"
@@ -43,6 +44,25 @@ func (s *Sim) pickCoins(from []*Coin, max int) []*Coin {
 func (s *Sim) pickFor(need uint64) []*Coin {
 	un := s.UnspentCoins()
 	perm := s.Rng.Perm(len(un))
+	if s.Rng.Intn(2) == 0 {
+		// tight selection: smallest coins first, so that little more than `need` is burned
+		sort.Slice(perm, func(i, j int) bool { return un[perm[i]].P.Amount < un[perm[j]].P.Amount })
+		var out []*Coin
+		var sum uint64
+		for _, i := range perm {
+			out = append(out, un[i])
+			sum += un[i].P.Amount
+			if sum >= need+client.FeeFor(Proofs(out), s.E.Keysets) {
+				// drop small coins that are not needed any more
+				for len(out) > 1 && sum-out[0].P.Amount >= need+client.FeeFor(Proofs(out[1:]), s.E.Keysets) {
+					sum -= out[0].P.Amount
+					out = out[1:]
+				}
+				return out
+			}
+		}
+		return nil
+	}
 	var out []*Coin
 	var sum uint64
 	for _, i := range perm {
@@ -74,7 +94,7 @@ func (s *Sim) randPlan(cfg GenCfg) lnmodel.PayPlan {
 	return lnmodel.PayPlan{Answer: lnmodel.ASucceeded}
 }
 
-var advOutModes = []string{"over1", "overflow", "nonpow2", "zero-amount", "inactive-keyset", "mixed-inactive-keyset", "unknown-keyset", "mixed-unknown-keyset", "dup-output", "already-signed"}
+var advOutModes = []string{"over1", "overflow", "near-overflow", "nonpow2", "zero-amount", "inactive-keyset", "mixed-inactive-keyset", "unknown-keyset", "mixed-unknown-keyset", "dup-output", "already-signed"}
 
 // RandomOp performs one generated operation.
 func (s *Sim) RandomOp(cfg GenCfg) {
@@ -253,7 +273,16 @@ func (s *Sim) randomMelt(cfg GenCfg) {
 		if mq == nil {
 			return
 		}
-		lq := s.NewInternalMeltQuote(mq)
+		var lq *MeltQ
+		switch k := s.Rng.Intn(4); {
+		case k == 0 && cfg.Adversarial && mq.Amount > 2:
+			// own invoice's payment hash on a self-made invoice for less
+			lq = s.NewForgedInternalMeltQuote(mq, (1+uint64(s.Rng.Int63n(int64(mq.Amount-1))))*1000)
+		case k == 1 && cfg.Adversarial && cfg.MPP && mq.Amount > 2:
+			lq = s.NewInternalMppMeltQuote(mq, (1+uint64(s.Rng.Int63n(int64(mq.Amount-1))))*1000)
+		default:
+			lq = s.NewInternalMeltQuote(mq)
+		}
 		if lq == nil {
 			return
 		}
